@@ -266,6 +266,10 @@ func (db *Backend) PutObject(bucketName, objectName string, meta map[string]stri
 	}
 	verifhook.At("s3mem.put.after-read")
 
+	if meta == nil {
+		// "The map containing meta may be nil"; MergeMetadata fills it.
+		meta = make(map[string]string)
+	}
 	err = gofakes3.MergeMetadata(db, bucketName, objectName, meta)
 	if err != nil {
 		return result, err
